@@ -1,16 +1,18 @@
 ----------------------------- MODULE ChannelId -----------------------------
 (* Channel numbering (C19): transcription of LanceroSource.PrepareChannels (lancero_source.go) -- validation of the
    separation parameters and the numbering loop -- with the declarative predicates of the property.  A behaviour is
-   one step: choose a configuration, run PrepareChannels.  TLC enumerates every configuration in the bound.
+   a configuration followed by up to MaxPasses runs of PrepareChannels on the same object.  TLC enumerates every configuration in the bound.
    The other sources (Abaco: one group per packet group, Roach / simulated: one group from 0) have no parameters
    that could collide beyond overlapping Abaco groups; they are covered by the trace specification.  *)
 EXTENDS Integers, Sequences, FiniteSets, TLC
 CONSTANTS DevNums,      \* possible device numbers
           Geoms,        \* possible <<ncols, nrows>> per device
-          FirstRows, SepCards, SepCols
+          FirstRows, SepCards, SepCols,
+          MaxPasses,    \* how many times PrepareChannels runs on the same object
+          ResetGroups   \* switch, TRUE = as the code is
 
-VARIABLES cfg, result, done
-vars == <<cfg, result, done>>
+VARIABLES cfg, result, done, passes
+vars == <<cfg, result, done, passes>>
 
 \* active devices in increasing devnum order, each with a geometry
 DevSeqs == UNION {{[i \in 1..Cardinality(S) |-> [devnum |-> (CHOOSE f \in [1..Cardinality(S) -> S] : \A a, b \in 1..Cardinality(S) : a < b => f[a] < f[b])[i],
@@ -18,7 +20,7 @@ DevSeqs == UNION {{[i \in 1..Cardinality(S) |-> [devnum |-> (CHOOSE f \in [1..Ca
                    : g \in [1..Cardinality(S) -> Geoms]} : S \in (SUBSET DevNums) \ {{}}}
 
 Init == /\ cfg \in [devs : DevSeqs, first : FirstRows, sepcards : SepCards, sepcols : SepCols]
-        /\ result = [ok |-> FALSE, chans |-> <<>>, groups |-> <<>>] /\ done = FALSE
+        /\ result = [ok |-> FALSE, chans |-> <<>>, groups |-> <<>>] /\ done = FALSE /\ passes = 0
 
 \* validation as in the code
 Valid(c) ==
@@ -42,8 +44,14 @@ RECURSIVE Devs(_, _, _)
 Devs(c, st, i) == IF i > Len(c.devs) THEN st ELSE Devs(c, Cols(c, DevStart(c, st, c.devs[i]), c.devs[i], 0), i + 1)
 Number(c) == Devs(c, [cnum |-> c.first, colfirst |-> c.first - c.sepcols, chans |-> <<>>, groups |-> <<>>], 1)
 
-Prepare == /\ ~done /\ done' = TRUE /\ UNCHANGED cfg
-           /\ result' = IF Valid(cfg) THEN LET n == Number(cfg) IN [ok |-> TRUE, chans |-> n.chans, groups |-> n.groups]
+\* PrepareChannels runs again on the same object whenever a Start got past it and failed later (PrepareRun / StartRun),
+\* or a run ended by itself, and Start is tried again: Stop() - which also empties the group list - is not in between.
+\* ResetGroups (TRUE = as the code is): every call starts from an empty group list.
+Prepare == /\ passes < MaxPasses /\ passes' = passes + 1 /\ done' = TRUE /\ UNCHANGED cfg
+           /\ result' = IF Valid(cfg)
+                        THEN LET n == Devs(cfg, [cnum |-> cfg.first, colfirst |-> cfg.first - cfg.sepcols, chans |-> <<>>,
+                                                 groups |-> IF ResetGroups \/ passes = 0 THEN <<>> ELSE result.groups], 1)
+                             IN [ok |-> TRUE, chans |-> n.chans, groups |-> n.groups]
                         ELSE [ok |-> FALSE, chans |-> <<>>, groups |-> <<>>]
 Next == Prepare
 Spec == Init /\ [][Next]_vars
